@@ -39,7 +39,7 @@ func DrawKnobs(t *simcore.Tape, wild bool, forceCross int) Knobs {
 	k.W[OpRegister] = []int{6, 10, 14}[t.CfgDraw(3)]
 	k.W[OpSettle] = []int{1, 3, 6}[t.CfgDraw(3)]
 	k.W[OpFailAttempt] = []int{2, 4, 8}[t.CfgDraw(3)]
-	k.W[OpFail] = []int{1, 2, 4}[t.CfgDraw(3)]
+	k.W[OpFail] = []int{1, 1, 3}[t.CfgDraw(3)]
 	k.W[OpDeletePayment] = []int{0, 1, 2}[t.CfgDraw(3)]
 	k.W[OpDeleteFailedAttempts] = []int{0, 1, 2}[t.CfgDraw(3)]
 	k.W[OpFetch] = []int{1, 2, 3}[t.CfgDraw(3)]
@@ -174,7 +174,7 @@ func (g *Gen) genAttempt(w *World, h int) AttSpec {
 		a.Kind = AttKind(r.Draw(3))
 	}
 	// amount: up to and beyond the remainder
-	cands := []int64{remaining, remaining, (remaining + 1) / 2, (remaining + 3) / 4, remaining + 1, value, value + 1, 1}
+	cands := []int64{remaining, (remaining + 1) / 2, (remaining + 1) / 2, (remaining + 3) / 4, (remaining + 3) / 4, remaining + 1, value + 1, 1}
 	if a.Kind == AttSingle {
 		cands = []int64{value, value, value, remaining, value + 1, (value + 1) / 2}
 	}
